@@ -68,13 +68,12 @@ fn parse_cfg_if_inner<'a>(
         {
             let item = match parser.parse_item(ForceCollect::No) {
                 Ok(Some(item_ptr)) => {
-                    // The parser recovered from a syntax error: the count it leaves behind in the
-                    // session would make the formatting that follows give up on its next macro.
+                    // The parser may have recovered from a syntax error (in an arm the compiler
+                    // never looks into, say): the count it leaves behind in the session would make
+                    // the formatting that follows give up on its next macro. The item -- and the
+                    // modules declared in this call -- are still what they are.
                     if parser.psess.dcx().has_errors().is_some() {
                         parser.psess.dcx().reset_err_count();
-                        return Err(
-                            "Expected item inside cfg_if block, but failed to parse it as an item",
-                        );
                     }
                     item_ptr.into_inner()
                 }
